@@ -427,16 +427,34 @@ func shapeSig(c *jcase) string {
 	return ""
 }
 
+// shape of the second known finding, decided from the inputs only: a crash_create cut inside the
+// flag+id bytes (1 <= n <= 8) followed later by an index compaction.
+func shapeSig2(c *jcase) string {
+	torn := false
+	for _, o := range c.Ops {
+		if o.T == "crash_create" && o.N >= 1 && o.N <= 8 {
+			torn = true
+		}
+		if o.T == "compact" && torn {
+			return findingSig2
+		}
+	}
+	return ""
+}
+
+const emptyCase = "Build_case [] [] [0%N; 0%N; 0%N; 0%N; 0%N; 0%N; 0%N; 0%N]"
+
 func emit(w *vh.W, c *jcase) {
 	var rerr error
 	if p := vh.Guard(func() { rerr = run(c) }); p != "" {
-		idx := w.Add("Build_case [] [] [0%N]", c, true, shapeSig(c))
-		w.Fail(idx, "panic in real series file: "+p, shapeSig(c))
+		idx := w.Add(emptyCase, c, true, shapeSig(c))
+		w.Fail(idx, "panic in real series file: "+p, shapeSig2(c))
+		w.Count("panic", p)
 		return
 	}
 	if rerr != nil {
-		idx := w.Add("Build_case [] [] [0%N]", c, true, shapeSig(c))
-		w.Fail(idx, "error from real series file: "+rerr.Error(), shapeSig(c))
+		idx := w.Add(emptyCase, c, true, shapeSig(c))
+		w.Fail(idx, "error from real series file: "+rerr.Error(), shapeSig2(c))
 		return
 	}
 	nontrivial := false // some key gets an id and a later step is a delete/reopen/compact/crash
